@@ -24,6 +24,7 @@ FORCED = ["a*a", "a+a", "a?a", "[ab]*b", "(a|b)*abb", "(ab)*a", "(a*|bc)+c", "(b
           "ab|ac", "(ab|ac)d", "a(b|c)*", "(a{2}){3}", "a{0}", "a{1}", "a{3}b", "(ab){2}c", "(a|b){2}", "a|b|c", "(a|b)|c", "a|(b|c)",
           "abc", "a", ".", ".*", "[^a]*", "[a-c]+d", "\\x41\\x42", "\\(a\\)", "a\\*", "(a)", "((a))", "(a)(b)", "a?b?c?", "(ab)?c", "a*b*", "(a*)*",
           "(a+)+", "(a?)*", "x(y|z)+w", "[0-9]+", "[a-zA-Z_][a-zA-Z_0-9]*", "0|[1-9][0-9]*", "\"[^\"]*\"", "1{2}", "12", "a{10}", "(a|ab)(c|bcd)",
+          "[\\x20-\\xff]", "[a-\\xff]+", "[^\\x00-\\x9f]", "[\\x7f-\\x80]", "a b", "a  b*", "[ab] c", "( a)", "a{100}", "a{123}b", "(ab){101}c",
           "\\x", "\\x4", "\\x4g", "[\\x]", "[a-\\x63]", "[--a]", "[a\\-c]", "\\\\", "[\\\\]", "\\x00", "[\\x00-\\x1f]", "[^\\x00-\\x7f]", "\\xff", "[\\x80-\\xff]+"]
 DET_ONLY = ["abc", "a|b", "ab|cd", "(ab|cd)e", "a(b|c)d", "a?b", "ab*c", "ab+c", "(ab)+c", "(ab)*c", "a{3}", "(ab){2}", "[a-c]d", "a|b|c|d", "(a|b)(c|d)", "ab?c", "a(bc)?d", "x[0-9]+y", "(ab|c)*d"]
 MALFORMED = ["(", ")", "(a", "a)", "()", "a|", "|a", "a||b", "*", "+a", "?", "a**", "a*+", "a{", "a{}", "a{2", "a{x}", "{2}", "[", "[a", "[a-", "[a-]", "[^", "\\", "a\\", "(|a)", "(a|)", "a{2}{3}", "a{-1}", "\x01", "a\x7f", "a\x80b", "\t", " a", "a b", "[\x01]", "[a-\x01]", "\\\x01", "((a)", "(a))", "a|*", "(*a)", "a{2,3}", "[a-]]", "[]]"]
